@@ -15,19 +15,23 @@ import (
 func init() { register("C20", true, checkC20) }
 
 func checkC20(p *Prog, r *Report) {
-	r.Explain("PLANE: every call of a body-less (assembly) function that receives the raw Y/Cb/Cr planes is dominated by guards that establish the layout the kernel assumes — 4:4:4 subsampling, rectangle origin (0,0), YStride == CStride == width, width a multiple of 8, and destination and planes holding at least width·height elements. ASMPLANE: the kernel's text is read: two counted loops (y up to maxY, x in steps of 8 up to maxX with an equality exit), 8-byte loads at plane + y·stride + x, one 32-byte store at pixels + 4·(y·yStride + x); substituting the PLANE guards, the largest offsets are width·height − 1 for loads and stores alike, and the equality exit is reached because 8 divides the width. OFFS / OFFS-C: in the portable converters every index into img.Y comes from YOffset (or a multiple of the stride) and every index into img.Cb/Cr from COffset with the same coordinates — hand-written chroma arithmetic is rejected because it is only right for one subsampling ratio and origin parity. ORIGIN: the coordinates handed to YOffset/COffset/At are loop index + Rect.Min. The 2.0 tolerance between the assembly and portable arithmetic is numerical and not decided. ASMCONST: the six integer entries of the kernel constant table constyCbCrGray (chroma bias, luma scale, the four BT.601 coefficients) each occur as an integer constant of the portable converter yCbCrToGrayAlt.")
-	r.Trusted("image.YCbCr.YOffset/COffset implement the subsampling arithmetic", "x86 access widths: VPMOVZXBD m64→ymm reads 8 bytes, VMOVAPS ymm→m256 writes 32")
+	r.Explain("PLANE: every call of a body-less (assembly) function that receives the raw Y/Cb/Cr planes is dominated by guards that establish the layout the kernel assumes — 4:4:4 subsampling, rectangle origin (0,0), YStride == CStride == width, width a multiple of 8, and destination and planes holding at least width·height elements. ASMPLANE: the kernel's text is read: two counted loops (y up to maxY, x in steps of 8 up to maxX with an equality exit), 8-byte loads at plane + y·stride + x, one 32-byte store at pixels + 4·(y·yStride + x); substituting the PLANE guards, the largest offsets are width·height − 1 for loads and stores alike, and the equality exit is reached because 8 divides the width. OFFS / OFFS-C: in the portable converters every index into img.Y comes from YOffset (or a multiple of the stride) and every index into img.Cb/Cr from COffset with the same coordinates — hand-written chroma arithmetic is rejected because it is only right for one subsampling ratio and origin parity. ORIGIN: the coordinates handed to YOffset/COffset/At are loop index + Rect.Min. The 2.0 tolerance between the assembly and portable arithmetic is numerical and not decided. ASMCONST: the six integer entries of the kernel constant table constyCbCrGray (chroma bias, luma scale, the four BT.601 coefficients) each occur as an integer constant of the portable converter yCbCrToGrayAlt. ALIGN: the YCbCr kernel makes no alignment-requiring memory access (MOVAPS/VMOVAPS/MOVDQA/MOVNT* with a memory operand): its destination is a parameter of the exported AsmYCbCrToGray, any []float32 the caller likes, and a slice is aligned to 4 bytes only.")
+	r.Trusted("image.YCbCr.YOffset/COffset implement the subsampling arithmetic", "x86 access widths: VPMOVZXBD m64→ymm reads 8 bytes, VMOVUPS ymm→m256 writes 32")
 	rulePlane(p, r)
 	ruleAsmPlane(p, r)
 	ruleOffs(p, r)
 	ruleOffsChroma(p, r)
 	ruleTblFill(p, r)
+	ruleConvDispatch(p, r)
+	r.Floor("DISPATCH", 3)
 	ruleOrigin(p, r, "C20")
 	if af, err := parseAsm(asmPath(p)); err != nil {
 		r.Undecided("ASMCONST", "asm_x86.s", "-", "cannot read the assembly file: "+err.Error())
 	} else {
 		ruleAsmConst(p, r, af)
+		ruleAsmAlignFor(r, af, "YCbCr")
 	}
+	r.Floor("ALIGN", 1)
 	r.Floor("ASMCONST", 1)
 	r.Floor("PLANE", 1)
 	r.Floor("ASMPLANE", 1)
